@@ -140,3 +140,8 @@ def registry_nan(ctx):
         if not ok:
             ctx.violation(f"{name}: reduce over x with NaN observations differs from deleting those columns: {why}",
                           {"fn": name, "fcst": gens.da_repr(f), "obs": gens.da_repr(o), "extra": extra}, "equal", why)
+
+
+def run_without_model(ctx):
+    """used when the extracted model does not build against the current source: relations between public calls only"""
+    recipe_masked_vs_deleted(ctx)
